@@ -20,3 +20,4 @@ open HmcVerif.C13
 #print axioms normal_det_diagonal
 #print axioms mixture_shift_invariant
 #print axioms mixture_grad_shift_invariant
+#print axioms logspace_change_of_variables_abs
